@@ -30,6 +30,7 @@ STUBS = [
     "FakeSocket (socket.socket subclass, no I/O): send/sendmsg accept 1..offered bytes (0 iff nothing offered) or raise BlockingIOError",
     "StubSelector: select(w) returns after e <= w ticks, 'not ready' only after the full w; select() without timeout always becomes ready",
     "VirtualClock: time.perf_counter as seen by easynetwork.lowlevel._utils",
+    "FakeAsyncioTransport (async/* shards): asyncio.Transport double honouring set_write_buffer_limits / pause_writing / resume_writing; the kernel takes a solver-chosen part of each write and of each flush",
     "ChunkSerializer: harness incremental serializer yielding the packet's chunk vector unchanged",
 ]
 ASSUMPTIONS = ["at most K would-block results per call (K per shard); a writable socket accepts at least one byte"]
@@ -37,7 +38,7 @@ BOUNDS = {
     "quick": "<= 4 chunks of 0..2 bytes (every position of the empty chunks), <= 2 would-blocks, SC_IOV_MAX in {real, 2, 0 (join path)}, transport and endpoint level",
     "thorough": "<= 5 chunks of 0..3 bytes, <= 3 would-blocks",
 }
-OUTSIDE = "the real kernel, SSLStreamTransport (OpenSSL), asyncio adapter writelines (C code; see C20), async TLS backlog (see C12)"
+OUTSIDE = "the real kernel, SSLStreamTransport (OpenSSL), the real asyncio selector transport (replaced by FakeAsyncioTransport in the async/* shards), async TLS backlog (see C12)"
 
 
 class ChunkSerializer(AbstractIncrementalPacketSerializer):
@@ -109,6 +110,122 @@ def _vectors(maxq, maxlen):
     return out
 
 
+def asend(lens: list, api: str, K: int, packets: int = 1):
+    """Asynchronous senders over the REAL asyncio socket adapter + flow control on the deterministic loop:
+    api = endpoint      AsyncStreamEndpoint.send_packet (ChunkSerializer chunk vector -> adapter.send_all_from_iterable -> writelines)
+          adapter-iter  AsyncioTransportStreamSocketAdapter.send_all_from_iterable
+          adapter-all   AsyncioTransportStreamSocketAdapter.send_all (one chunk = the concatenation)
+          default-iter  the default AsyncStreamWriteTransport.send_all_from_iterable (join + send_all) over the same adapter's send_all
+    The fake asyncio transport's kernel accepts a solver-chosen part of every write at once and a solver-chosen number of bytes
+    per flush; loop iterations and flushes are interleaved by solver choice.  Chunk CONTENTS are concrete distinct bytes here
+    (the contents cannot matter once the sizes are fixed; the symbolic-content shards are the sync ones above).
+    Asserted: every send returns, returns only after all its bytes were handed to the kernel, and the kernel saw exactly the
+    concatenation of the chunks of every packet, in order, once."""
+    import asyncio
+
+    from easynetwork.lowlevel.api_async.backend._asyncio.backend import AsyncIOBackend
+    from easynetwork.lowlevel.api_async.backend._asyncio.stream.socket import AsyncioTransportStreamSocketAdapter, StreamReaderBufferedProtocol
+    from easynetwork.lowlevel.api_async.endpoints.stream import AsyncStreamEndpoint
+    from easynetwork.lowlevel.api_async.transports.abc import AsyncStreamWriteTransport
+
+    from .asyncenv import FakeAsyncioTransport, loop_context
+
+    def scenario(S):
+        with loop_context() as loop:
+            be = AsyncIOBackend()
+            p = StreamReaderBufferedProtocol(loop=loop)
+            tr = FakeAsyncioTransport(loop, p)
+            p.connection_made(tr)
+            adapter = AsyncioTransportStreamSocketAdapter(be, tr, p)
+            tr.accept_now = lambda n: S.int(0, n, "now")
+            vectors = []
+            nxt = 65
+            for k in range(packets):
+                vec = []
+                for n in lens:
+                    vec.append(bytes(range(nxt, nxt + n)))
+                    nxt += n
+                vectors.append(vec)
+            expected = b"".join(b"".join(v) for v in vectors)
+
+            def handed():
+                return sum(len(w) for w in tr.wire)
+
+            if api == "endpoint":
+                ep = AsyncStreamEndpoint(adapter, StreamProtocol(ChunkSerializer()), max_recv_size=8)
+                send = lambda vec: ep.send_packet(vec)  # noqa: E731
+            elif api == "adapter-iter":
+                send = lambda vec: adapter.send_all_from_iterable(iter(vec))  # noqa: E731
+            elif api == "adapter-all":
+                send = lambda vec: adapter.send_all(b"".join(vec))  # noqa: E731
+            else:
+
+                class Default(AsyncStreamWriteTransport):
+                    async def send_all(self, data):
+                        await adapter.send_all(data)
+
+                    async def aclose(self):
+                        pass
+
+                    def is_closing(self):
+                        return False
+
+                    def backend(self):
+                        return be
+
+                    @property
+                    def extra_attributes(self):
+                        return {}
+
+                d = Default()
+                send = lambda vec: d.send_all_from_iterable(iter(vec))  # noqa: E731
+            st = {"returns": [], "error": None}
+
+            async def run():
+                done = 0
+                for vec in vectors:
+                    await send(vec)
+                    done += len(b"".join(vec))
+                    st["returns"].append((done, handed()))
+
+            t = loop.create_task(run())
+            partial = 0
+            for i in range(K):
+                if t.done():
+                    break
+                if S.bool(f"flush{i}"):
+                    if tr.buffer:
+                        partial += 1
+                    tr.flush(S.int(1, 3, f"fl{i}"))
+                else:
+                    loop.step()
+            for _ in range(6 * packets + 2 * sum(lens) * packets + 10):
+                if t.done():
+                    break
+                tr.flush(1)
+                loop.step()
+            finished = t.done()
+            if finished and not t.cancelled() and t.exception() is not None:
+                st["error"] = repr(t.exception())
+            if not finished:
+                t.cancel()
+                loop.run_until_idle(30)
+            wire = b"".join(tr.wire)
+            ok = finished and st["error"] is None and wire == expected and len(st["returns"]) == packets
+            if ok:
+                for done, h in st["returns"]:
+                    if h < done:
+                        ok = False  # returned before its bytes reached the kernel
+            tags = []
+            if partial or tr.max_buffered:
+                tags.append("partial-write")
+            if 0 in lens:
+                tags.append("empty-chunk")
+            return Outcome(ok=ok, skeleton=(finished, len(st["returns"]), len(wire)), tags=tuple(tags), detail={"wire": wire, "expected": expected, "finished": finished, "error": st["error"], "returns": st["returns"]})
+
+    return scenario
+
+
 def shards(tier: str):
     out = []
     quick = tier == "quick"
@@ -135,6 +252,11 @@ def shards(tier: str):
     for T in (1, 2) if quick else (1, 2, 4):
         for lens, mode in (([1, 1], "sendmsg"), ([2, 0, 1], "sendmsg"), ([2], "send_all"), ([1, 1], "join")):
             out.append({"name": f"budget/{mode}/{'-'.join(map(str, lens))}/T{T}", "scenario": "props.c11:send_budget", "params": dict(lens=lens, T=T, interval=1, mode=mode, max_eagain=2), "budget": B, "cost": 50, "per_path_timeout": 20})
+    # asynchronous senders (asyncio adapter writelines/write + flow control, endpoint, default join implementation)
+    for v in ([2, 1], [0, 2, 0], [1, 0, 2], [0, 0]) if quick else ([2, 1], [0, 2, 0], [1, 0, 2], [0, 0], [2, 2, 1], [3, 0, 0, 1]):
+        nm = "-".join(map(str, v))
+        for api in ("endpoint", "adapter-iter", "adapter-all", "default-iter"):
+            out.append({"name": f"async/{api}/{nm}", "scenario": "props.c04:asend", "params": dict(lens=v, api=api, K=3 if quick else 6, packets=2), "budget": B, "cost": 200, "per_path_timeout": 30})
     # KS engine: loop-head induction for the timeout book-keeping loops (unbounded number of wake-ups / partial writes)
     out.append({"name": "ks/retry-send_all-sendmsg/loop-head-induction", "ks": "ks.retry:run_all", "scenario": "ks.retry:run_all", "params": {}, "budget": 120, "cost": 1})
     return out
